@@ -848,7 +848,7 @@ fn corpus() -> Vec<Case> {
   let mut v = corpus_fixed();
   // (B) second sample (insert + all three notifications) lands after k consumer steps, k sweeping
   // over the whole first wake-up: poll, the drains, the fills, the hand-over, the empty take
-  for k in 4..=11usize {
+  for k in 4..=13usize {
     for v08 in [true, false] {
       let mut l = vec![0u8; 4];
       l.extend(std::iter::repeat(1u8).take(k));
